@@ -5,7 +5,7 @@ use crate::bddgen::*;
 use crate::cnfgen::*;
 use crate::common::*;
 use crate::rng::Rng;
-use crate::sddstream::{exec_sdd, gen_vtree, sdd_canon};
+use crate::sddstream::{exec_sdd, gen_vtree, sdd_canon, VT};
 use rsdd::builder::bdd::{BddBuilder, RobddBuilder};
 use rsdd::builder::cache::AllIteTable;
 use rsdd::builder::decision_nnf::{DecisionNNFBuilder, StandardDecisionNNFBuilder};
@@ -41,7 +41,7 @@ fn exec_sem<'a, const P: u128>(b: &'a SemanticSddBuilder<'a, P>, ops: &[Op]) -> 
     pool
 }
 
-fn hash_report<const P: u128>(rng: &mut Rng, n: usize, prog: &Program, order2: &[usize]) -> String {
+fn hash_report<const P: u128>(rng: &mut Rng, n: usize, prog: &Program, order2: &[usize], vt_fixed: Option<VT>) -> String {
     let map = create_semantic_hash_map::<P>(n);
     let ws: Vec<String> = (0..n)
         .map(|i| {
@@ -54,7 +54,10 @@ fn hash_report<const P: u128>(rng: &mut Rng, n: usize, prog: &Program, order2: &
     let p1 = exec(&b1, &prog.ops);
     let b2 = RobddBuilder::<AllIteTable<BddPtr>>::new(mk_order(order2));
     let p2 = exec(&b2, &prog.ops);
-    let vt1 = gen_vtree(rng, n);
+    let vt1 = match vt_fixed {
+        Some(v) => v,
+        None => gen_vtree(rng, n),
+    };
     let vt2 = gen_vtree(rng, n);
     let s1 = CompressionSddBuilder::new(vt1.to_vtree());
     let q1 = exec_sdd(&s1, &prog.ops);
@@ -141,7 +144,7 @@ pub fn hash_lines(rng: &mut Rng, idx: u64, maxvars: usize, maxops: usize) -> Vec
         out.push(format!("{} => {}", h, r));
         return out;
     }
-    let n = rng.range(2, maxvars as u64) as usize;
+    let n = if maxvars >= 5 && rng.chance(1, 3) { rng.range(5, maxvars as u64) as usize } else { rng.range(2, maxvars as u64) as usize };
     let nops = rng.range(6, maxops as u64) as usize;
     let mut prog = gen_program_x(rng, n, nops, false, true);
     // only operations every builder involved has (the semantic SDD builder has no ite)
@@ -153,6 +156,58 @@ pub fn hash_lines(rng: &mut Rng, idx: u64, maxvars: usize, maxops: usize) -> Vec
             _ => {}
         }
     }
+    // directed family (one program in six, five or more variables): a conjunction whose
+    // uncompressed product has three elements and denotes `la & lc`, conditioned on `lc` (leaves
+    // an untrimmed node that denotes the literal `la`), used under a top variable, next to the
+    // same function assembled by resolution from trimmed pieces — on the vtree (t ((a b)(c d))).
+    // Exercises the complement lookups of the semantic-hash node tables.
+    let mut vt_fixed: Option<VT> = None;
+    if n >= 5 && rng.chance(1, 3) {
+        let roles = rng.perm(n);
+        let (t, a, b, c, d) = (roles[0], roles[1], roles[2], roles[3], roles[4]);
+        let flip: Vec<bool> = (0..n).map(|_| rng.coin()).collect();
+        let leaf = |x: usize| Box::new(VT::Leaf(x));
+        let mut core = VT::Node(
+            Box::new(VT::Node(leaf(a), leaf(b))),
+            Box::new(VT::Node(leaf(c), leaf(d))),
+        );
+        // further variables hang to the right of the core
+        for &x in roles.iter().skip(5) {
+            core = VT::Node(Box::new(core), leaf(x));
+        }
+        vt_fixed = Some(VT::Node(leaf(t), Box::new(core)));
+        let ops = &mut prog.ops;
+        let mut push = |ops: &mut Vec<Op>, o: Op| {
+            ops.push(o);
+            ops.len() - 1
+        };
+        let lit = |x: usize, pos: bool| Op::Var(x, pos != flip[x]);
+        let na = push(ops, lit(a, false));
+        let pa = push(ops, lit(a, true));
+        let pb = push(ops, lit(b, true));
+        let nb = push(ops, lit(b, false));
+        let pc = push(ops, lit(c, true));
+        let nc = push(ops, lit(c, false));
+        let pd = push(ops, lit(d, true));
+        let nd = push(ops, lit(d, false));
+        let pt = push(ops, lit(t, true));
+        let c_or_d = push(ops, Op::Or(pc, pd));
+        let aa = push(ops, Op::And(na, c_or_d));
+        let c_or_nd = push(ops, Op::Or(pc, nd));
+        let na_b = push(ops, Op::And(na, pb));
+        let b1 = push(ops, Op::And(na_b, c_or_nd));
+        let a_or_nb = push(ops, Op::Or(pa, nb));
+        let b2 = push(ops, Op::And(a_or_nb, pc));
+        let bb = push(ops, Op::Or(b1, b2));
+        let g = push(ops, Op::And(aa, bb));
+        let m = push(ops, Op::Cond(g, c, !flip[c]));
+        let _nn = push(ops, Op::And(pt, m));
+        let na_or_c = push(ops, Op::Or(na, pc));
+        let na_or_nc = push(ops, Op::Or(na, nc));
+        let u = push(ops, Op::And(pt, na_or_c));
+        let w = push(ops, Op::And(pt, na_or_nc));
+        let _r = push(ops, Op::And(u, w));
+    }
     let order2 = rng.perm(n);
     let head = format!(
         "hash kind=prog n={} order1={} order2={} ops={}",
@@ -163,9 +218,9 @@ pub fn hash_lines(rng: &mut Rng, idx: u64, maxvars: usize, maxops: usize) -> Vec
     );
     let pick = rng.below(3);
     let r = guarded(|| match pick {
-        0 => hash_report::<{ primes::U32_SMALL }>(rng, n, &prog, &order2),
-        1 => hash_report::<{ primes::U32_TINY }>(rng, n, &prog, &order2),
-        _ => hash_report::<{ primes::U64_LARGEST }>(rng, n, &prog, &order2),
+        0 => hash_report::<{ primes::U32_SMALL }>(rng, n, &prog, &order2, vt_fixed.clone()),
+        1 => hash_report::<{ primes::U32_TINY }>(rng, n, &prog, &order2, vt_fixed.clone()),
+        _ => hash_report::<{ primes::U64_LARGEST }>(rng, n, &prog, &order2, vt_fixed.clone()),
     });
     out.push(format!("{} => {}", head, r.unwrap_or_else(|e| e)));
     out
